@@ -5,7 +5,7 @@ ROOT = os.path.dirname(os.path.dirname(os.path.abspath(__file__)))
 
 CHECKS = {
  "C13": dict(
-   text="(1) strict snapshot of every generated model before and after every printer / graph / utils call and of module file slices around the merger; (2) explicit-state breadth-first search over the states of the process-global ANTLR caches (keyed by the serialised DFAs) with the real parse entry points and the other public calls as transitions, successor = cache reset + history replay + one call, invariant on every transition: output equals the cold output; (3) stateless exploration of all interleavings of two (thorough: three) concurrent public calls within a preemption bound, scheduling points injected at every statement of the repository's packages and at every antlr lock operation, caches reset per execution: each result equals the sequential one, shared inputs unchanged, no deadlock or panic; (4) the same bodies free-running in a separate -race build.",
+   text="(1) strict snapshot of every generated model before and after every printer / graph / utils call and of module file slices around the merger; (2) explicit-state breadth-first search over the states of the process-global ANTLR caches (keyed by the serialised DFAs) with the real parse entry points and the other public calls as transitions, successor = cache reset + history replay + one call, invariant on every transition: output equals the cold output and every object returned earlier in the history still renders as when it was returned; the alphabet includes calls that fail part-way and one weighted-graph builder value that lives as long as the process; (3) stateless exploration of all interleavings of two (thorough: three) concurrent public calls within a preemption bound, scheduling points injected at every statement of the repository's packages and at every antlr lock operation, caches reset per execution: each result equals the sequential one, shared inputs unchanged, no deadlock or panic; (4) the same bodies free-running in a separate -race build.",
    note="Statement-level scheduling granularity; unsynchronised accesses below it are the race detector's part, which only sees races that occur in its free-running pass; protobuf, regexp and ulid are atomic.",
    technique="preemption-bounded stateless exploration of thread interleavings (controlled scheduler) + explicit-state BFS over cache states + race-detector pass",
    design="3/C13"),
@@ -15,8 +15,8 @@ CHECKS = {
    technique="explicit-state lock-step exploration of the product of the three automata plus replay of grammar-derived sentences on the implementation",
    design="3/C19"),
  "C08": dict(
-   text="All short lexeme strings in 10 grammar contexts through every DSL and module entry point (accepted texts continue through printer and both graph builders), JSON and YAML token strings and JSON value replacements through their entry points, every single and pair of protobuf degradations (nil/empty/dropped/renamed parts) through printer, plain graph and weighted builder: no panic, result xor error, unlexable characters outside comments always rejected; work measured as deterministic instrumented step counts from a cold parser: horizon 5e7 steps and growth exponent <= 2.5 between n and 2n repetitions of every short fragment in every insertion context and for scaled model families.",
-   note="Step counts come from build-time instrumentation of repository, antlr runtime, generated parser and yaml.v3; asymptotics judged at n=32/64 only; known finding F11 (form feed runs) suppressed by fragment signature.",
+   text="All short lexeme strings in 10 grammar contexts through every DSL and module entry point (accepted texts continue through printer and both graph builders), JSON and YAML token strings and JSON value replacements through their entry points, every single and pair of protobuf degradations (nil/empty/dropped/renamed parts) through printer, plain graph and weighted builder: no panic, result xor error, unlexable characters outside comments always rejected; work measured as deterministic instrumented step counts from a cold parser: horizon 5e7 steps and growth exponent <= 2.5 between n and 2n repetitions of every short fragment in every insertion context, for nested pumping (open^n inner close^n), and - against the wire size of the model - for scaled model families through printer and both graph builders (fixed shapes, deep operator trees, and every cell family: n levels of two relations over a 9 x 8 menu of level-to-level rewrites, open or closed into one tuple cycle), the weighted builder additionally from every start node of its depth-first weight assignment.",
+   note="Step counts come from build-time instrumentation of repository, antlr runtime, generated parser and yaml.v3; asymptotics judged at n=32/64 (fragments), depth 16/32 (nesting) and 8..64 levels (families) only; known findings F11 (form feed runs, fragment signature) and F14 (cubic weight assignment on chains of diamonds closed into a tuple cycle, family + exponent-interval signature) are the only suppressions.",
    technique="bounded exhaustive enumeration of inputs and fault combinations with panic guard and deterministic step-count horizon",
    design="3/C08"),
  "C15": dict(
@@ -45,17 +45,17 @@ CHECKS = {
    technique="exhaustive exploration of map-iteration schedules and input permutations with a differential oracle",
    design="3/C06"),
  "C10": dict(
-   text="Structure alphabet (duplicate/mixed conditioned restrictions, repeated operands, direct assignment twice under one operator, depth-3 nesting, repeated parent types) plus the graph alphabet: on every accepted execution an ordered parallel traversal of reference graph and real graph must agree on nodes, edge order, kinds, targets, tupleset labels and ordered condition sets; the model is unchanged by Build.",
+   text="Structure alphabet (duplicate/mixed conditioned restrictions, repeated operands, direct assignment twice under one operator, depth-3 nesting, repeated parent types; every ordered list of 1-4 distinct conditions on one target as terminal type, userset, wildcard and tupleset parent) plus the graph alphabet (incl. tupleset lists with repeated parents, same-target operands): on every accepted execution an ordered parallel traversal of reference graph and real graph must agree on nodes, edge order, kinds, targets, tupleset labels and ordered condition sets; the model is unchanged by Build.",
    note="Conditions on TTU edges and identical TTU operands under one operator are outside what the statement fixes.",
    technique="bounded exhaustive model enumeration x map schedules against a reference graph construction",
    design="3/C10"),
  "C11": dict(
-   text="Wildcard alphabet (public restrictions in every leaf position, inside and behind tuple cycles, under intersections/exclusions, distinct public types on both sides of a cycle) plus the graph alphabet, all schedules: node wildcard list = set of public types reachable along the real edges, edge list = target's set, no duplicates.",
+   text="Wildcard alphabet (public restrictions in every leaf position, inside and behind tuple cycles, under intersections/exclusions, distinct public types on both sides of a cycle; the many-public-types family - a relation assignable to every ordered list of 1-4 public types reached by one or two parents with public types of their own; the cycle-publics family - two relations on a tuple cycle with public types before/after their usersets and a relation behind the cycle) plus the graph alphabet, all schedules: node wildcard list = set of public types reachable along the real edges, edge list = target's set, no duplicates.",
    note="Judged on well-founded accepted models; C10 vouches for the edges.",
    technique="exhaustive schedule exploration x bounded exhaustive model enumeration against a reachability reference",
    design="3/C11"),
  "C07": dict(
-   text="All module file sets within the bounds (2-3 files, <= 2-3 declarations each from a menu of 11, plus malformed members) x every permutation of the file list x schema versions x map-iteration schedules of the merger: success exactly when the reference merge over the generator's declarations says so; on success the exact attributed union (also via GetModuleForObjectTypeRelation) and the requested schema version; on failure no model, no panic, and for every reference conflict an error naming a participating file.",
+   text="All module file sets within the bounds (2-3 files, <= 2-3 declarations each from a menu of 13, plus malformed members; the many-extenders family of four files with up to three extensions of one type; the two-targets family of one file extending two types), each also under other layout styles, x every permutation of the file list x schema versions x map-iteration schedules of the merger: success exactly when the reference merge over the generator's declarations says so; on success the exact attributed union (also via GetModuleForObjectTypeRelation) and the requested schema version; on failure no model, no panic, and for every reference conflict an error naming a participating file.",
    note="File names within a set are distinct; 'names the offending file' is demanded for the four conflict kinds only (parse failures and 'file is not a module' have no file field in the API).",
    technique="bounded exhaustive enumeration of file sets x permutations x map schedules against a reference merge",
    design="3/C07"),
@@ -75,8 +75,8 @@ CHECKS = {
    technique="bounded exhaustive fault injection: models x catalogue x sites x layouts",
    design="3/C09"),
  "C14": dict(
-   text="Plain and modular models x both option values x permutations of the type-definition list x all schedules of the printer's three map-iteration sites (controlled iteration injected by source rewriting; each site fully permuted, plus all pairs of deviations) x JSON key orders: one byte string per (model, option), declarations in the documented order (independent sort), stripped source-information output equals plain output and parses to the same model.",
-   note="Map order is owned through build-time rewriting of every range-over-map in pkg/go/transformer; protojson is atomic; items with file but no module are not generated.",
+   text="Plain and modular models x both option values x permutations of the type-definition list x all schedules of the printer's three map-iteration sites (controlled iteration injected by source rewriting; each site fully permuted, plus all pairs of deviations) x JSON key orders: one byte string per (model, option), declarations in the documented order (independent sort), stripped source-information output equals plain output and parses to the same model; every model printed again after each of six failing variants of itself gives the same text.",
+   note="Map order is owned through build-time rewriting of every range-over-map in pkg/go/transformer; protojson is atomic; items with a file but no module count as unattributed.",
    technique="exhaustive exploration of map-iteration schedules (stateless DFS over injected choice points) x input permutations",
    design="3/C14"),
  "C01": dict(
